@@ -10,7 +10,8 @@ for r in sys.argv[1:]:
             d = json.load(open(m))
         except Exception:
             continue
-        if '--all' in d.get('ran', '') and d.get('repo_head') == head and (len(d.get('checks', {})) == 20 or not d.get('applies_to_head')):
+        full = '--all' in d.get('ran', '') and (len(d.get('checks', {})) == 20 or not d.get('applies_to_head'))
+        if d.get('repo_head') == head and (full or '--prior' in d.get('ran', '')):
             dst = '/verif/seeded/%s/meta.json' % d['case']
             old = json.load(open(dst)) if os.path.exists(dst) else {}
             for k in ('existing_suite_still_passes', 'existing_suite_note'):
